@@ -1205,8 +1205,7 @@ func (repo *Repository) load(ctx context.Context, depth int) error {
 		return errors.New("No branches to load")
 	}
 
-	branches := make(Branches, 0, indexCount)
-	pruneHeight := -1
+	loaded := make(Branches, 0, indexCount)
 	for i := uint32(0); i < indexCount; i++ {
 		hash := &bitcoin.Hash32{}
 		if err := hash.Deserialize(indexBuf); err != nil {
@@ -1218,11 +1217,46 @@ func (repo *Repository) load(ctx context.Context, depth int) error {
 			return errors.Wrapf(err, "branch %s", hash)
 		}
 
-		if pruneHeight == -1 { // use height of first branch since it is the longest
-			pruneHeight = branch.Height() - depth
-		}
+		loaded = append(loaded, branch)
+	}
 
-		if branch.Height() < pruneHeight {
+	// Keep the branches that reach the prune depth and the branches those are built on. Use the
+	// height of the first branch since it is the longest.
+	keepHeight := loaded[0].Height() - depth
+	keep := make([]bool, len(loaded))
+	for i, branch := range loaded {
+		keep[i] = branch.Height() >= keepHeight
+	}
+	for changed := true; changed; {
+		changed = false
+		for i, branch := range loaded {
+			if keep[i] {
+				continue
+			}
+
+			for j, child := range loaded {
+				if keep[j] && child.parentHeight != -1 &&
+					branch.Find(child.PreviousHash()) == child.parentHeight {
+					keep[i] = true
+					changed = true
+					break
+				}
+			}
+		}
+	}
+
+	// Like prune, don't prune below a header that a kept branch is built on, otherwise that branch
+	// can't be linked to its parent.
+	pruneHeight := keepHeight
+	for i, branch := range loaded {
+		if keep[i] && branch.parentHeight != -1 && branch.parentHeight < pruneHeight {
+			pruneHeight = branch.parentHeight
+		}
+	}
+
+	branches := make(Branches, 0, len(loaded))
+	for i, branch := range loaded {
+		if !keep[i] {
 			logger.InfoWithFields(ctx, []logger.Field{
 				logger.String("branch", branch.Name()),
 			}, "Pruning branch")
